@@ -654,14 +654,29 @@ func caseClause(fd *ast.FuncDecl, name string) *ast.CaseClause {
 //	multiGlobal  `sym.global, sym.node = true, n` in a loop over n.child[:n.nleft], after compDefineX
 //	multiRetry   `revisit = append(revisit, n)` followed by `return false`, before compDefineX, and
 //	             gtaRetry reports the error kept in n.meta for a defineXStmt
-func gtaMultiFacts(gta, retry *ast.FuncDecl) (global, again bool, clause ast.Node) {
+//	operandRetry the retry also covers the comma-ok sources (fb8122a): the operand whose type is
+//	             awaited is chosen by `case src.kind == callExpr, src.kind == indexExpr,
+//	             src.kind == unaryExpr && src.action == aRecv: operand = src.child[0]` (and
+//	             `case src.kind == typeAssertExpr: operand = src.child[1]`); before, the test was
+//	             `src.kind == callExpr` alone
+func gtaMultiFacts(gta, retry *ast.FuncDecl) (global, again, operands bool, clause ast.Node) {
 	c := caseClause(gta, "defineXStmt")
 	if c == nil {
-		return false, false, nil
+		return false, false, false, nil
 	}
 	compiled := false
 	ast.Inspect(c, func(m ast.Node) bool {
 		switch x := m.(type) {
+		case *ast.CaseClause:
+			if x != c && !compiled && stmts(x.Body) == "operand=src.child[0]" {
+				var es []string
+				for _, e := range x.List {
+					es = append(es, render(e))
+				}
+				if strings.Join(es, ",") == "src.kind==callExpr,src.kind==indexExpr,src.kind==unaryExpr&&src.action==aRecv" {
+					operands = true
+				}
+			}
 		case *ast.CallExpr:
 			if render(x.Fun) == "compDefineX" {
 				compiled = true
@@ -693,7 +708,7 @@ func gtaMultiFacts(gta, retry *ast.FuncDecl) (global, again bool, clause ast.Nod
 			})
 		}
 	}
-	return global, again, c
+	return global, again, again && operands, c
 }
 
 // astSplitFacts reads `case token.VAR:` of ast (interp/ast.go):
@@ -735,7 +750,7 @@ func main() {
 			return "", err
 		}
 		resolve, fFuncs, fMeths, skipSelf := depWalkFacts(common.FindFunc(fc, "", "getVarDependencies"))
-		mGlobal, mRetry, gtaClause := gtaMultiFacts(common.FindFunc(fg, "Interpreter", "gta"), common.FindFunc(fg, "Interpreter", "gtaRetry"))
+		mGlobal, mRetry, opRetry, gtaClause := gtaMultiFacts(common.FindFunc(fg, "Interpreter", "gta"), common.FindFunc(fg, "Interpreter", "gtaRetry"))
 		split, astClause := astSplitFacts(common.FindFunc(fa, "Interpreter", "ast"))
 		dh := [][2]string{
 			{"gta: case defineXStmt", nodeHash(gtaClause)},
@@ -800,6 +815,7 @@ def depFacts : DepFacts :=
     skipSelf := %s,
     multiGlobal := %s,
     multiRetry := %s,
+    operandRetry := %s,
     splitPaired := %s,
     collectSkip := %s }
 /-- fingerprints of the statements depFacts was read from (getVarDependencies is in sourceHashes) -/
@@ -810,7 +826,7 @@ end YaegiVerif.Generated.C15
 			common.LeanStrList(tokens(common.FindFunc(fp, "Interpreter", "CompileAST"))),
 			common.LeanStrList(tokens(common.FindFunc(fs, "Interpreter", "importSrc"))),
 			h1, h2, register, add, join, gcases, strings.Join(ihs, ",\n   "),
-			resolve, leanBool(fFuncs), leanBool(fMeths), leanBool(skipSelf), leanBool(mGlobal), leanBool(mRetry), leanBool(split), collectSkipFact(common.FindFunc(fc, "", "genGlobalVarDecl")),
+			resolve, leanBool(fFuncs), leanBool(fMeths), leanBool(skipSelf), leanBool(mGlobal), leanBool(mRetry), leanBool(opRetry), leanBool(split), collectSkipFact(common.FindFunc(fc, "", "genGlobalVarDecl")),
 			strings.Join(dhs, ",\n   ")), nil
 	})
 }
